@@ -387,6 +387,92 @@ impl VerifService {
 }
 
 impl VerifService {
+    /// A service that shares its substream-id counter with other services (as the services of one
+    /// node do), with its own protocol names `/verif/<index>/1` (main) and `/verif/<index>/0`
+    /// (fallback), so that several of them fit into one connection's protocol table.
+    pub fn new_shared(
+        keep_alive_timeout: Duration,
+        keep_alive: bool,
+        counter: Arc<AtomicUsize>,
+        capacity: usize,
+        index: usize,
+    ) -> Self {
+        let (cmd_tx, _cmd_rx) = channel(64);
+        let local = PeerId::random();
+        let handle = TransportManagerHandle::new(
+            local,
+            Arc::new(parking_lot::RwLock::new(HashMap::new())),
+            cmd_tx,
+            HashSet::new(),
+            Default::default(),
+            PublicAddresses::new(local),
+        );
+        let protocol = ProtocolName::from(format!("/verif/{index}/1"));
+        let fallback = ProtocolName::from(format!("/verif/{index}/0"));
+        let keep_alive = if keep_alive {
+            SubstreamKeepAlive::Yes
+        } else {
+            SubstreamKeepAlive::No
+        };
+        let (service, tx) = TransportService::verif_new_with_capacity(
+            local,
+            protocol.clone(),
+            vec![fallback.clone()],
+            counter.clone(),
+            handle,
+            keep_alive_timeout,
+            keep_alive,
+            capacity,
+        );
+        VerifService {
+            service,
+            tx,
+            counter,
+            protocol,
+            fallback,
+            keep_alive,
+            _cmd_rx,
+            parked: parking_lot::Mutex::new(Vec::new()),
+        }
+    }
+
+    /// Main protocol name of this service.
+    pub fn protocol_name(&self) -> ProtocolName {
+        self.protocol.clone()
+    }
+
+    /// The calls that `TransportService` only forwards to its `TransportManagerHandle`:
+    /// 0 = `dial(peer)`, 1 = `dial_address(/ip4/127.0.0.1/tcp/port/p2p/peer)`,
+    /// 2 = `add_known_address(peer, [that address without /p2p, that address])`. Returns whether
+    /// the call reported success (the address book and the dial commands are not this module's).
+    pub fn api_call(&mut self, kind: u8, peer: PeerId, port: u16) -> bool {
+        use multiaddr::Protocol;
+        let bare = Multiaddr::empty()
+            .with(Protocol::Ip4(std::net::Ipv4Addr::new(127, 0, 0, 1)))
+            .with(Protocol::Tcp(port));
+        let full = bare.clone().with(Protocol::P2p(peer.into()));
+        match kind {
+            0 => self.service.dial(&peer).is_ok(),
+            1 => self.service.dial_address(full).is_ok(),
+            _ => {
+                self.service.add_known_address(&peer, vec![bare, full].into_iter());
+                true
+            }
+        }
+    }
+
+    /// `TransportService::force_close`: 0 = Ok, 1 = PeerDoesntExist, 2 = ConnectionClosed,
+    /// 3 = ChannelClogged, 4 = anything else.
+    pub fn force_close(&mut self, peer: PeerId) -> u8 {
+        match self.service.force_close(peer) {
+            Ok(()) => 0,
+            Err(crate::Error::PeerDoesntExist(_)) => 1,
+            Err(crate::Error::ConnectionClosed) => 2,
+            Err(crate::Error::ChannelClogged) => 3,
+            Err(_) => 4,
+        }
+    }
+
     /// A yamux stream of a parked connection: good enough to build a `tcp::Substream` value whose
     /// `poll_shutdown` completes (the close command is queued towards the parked connection).
     fn parked_yamux_stream(&self) -> tokio_util::compat::Compat<crate::yamux::Stream> {
